@@ -359,8 +359,10 @@ int convert_msa_to_internal(struct msa* msa, int type)
                 seq = msa->sequences[i];
                 for(j =0 ; j < seq->len;j++){
                         if(t[(int) seq->seq[j]] == -1){
-                                WARNING_MSG("there should be no character not matching the alphabet");
-                                WARNING_MSG("offending character: >>>%c<<<", seq->seq[j]);
+                                if(!msa->quiet){
+                                        WARNING_MSG("there should be no character not matching the alphabet");
+                                        WARNING_MSG("offending character: >>>%c<<<", seq->seq[j]);
+                                }
                                 seq->s[j] = unknown;
                         }else{
                                 seq->s[j] = t[(int) seq->seq[j]];
